@@ -88,6 +88,9 @@ fn main() {
             std::process::exit(2);
         }
     };
+    if args[1] == "c10one" {
+        std::process::exit(c10::one(&args[2]));
+    }
     if args[1] == "c19one" {
         std::process::exit(c19::one(&args[2]));
     }
